@@ -4,8 +4,8 @@
    REGENERATED from the live strategy objects (Gen/GenLayouts.v); protocols is the pinned table. *)
 From Coq Require Import ZArith List Bool.
 Import ListNotations.
-From SCMO Require Import Lib.Val Lib.PySlice Lib.PySliceFacts Model.C02Defs Model.C02Protocols
-     Gen.GenLayouts Model.C02 Proofs.C02 Proofs.C02_b.
+From SCMO Require Import Lib.Val Lib.PySlice Lib.PySliceFacts Model.C02Defs Model.C02Comp Model.C02Protocols
+     Gen.GenLayouts Gen.GenComp Model.C02 Proofs.C02 Proofs.C02_b Proofs.C02_comp.
 Open Scope Z_scope.
 
 (* ---- core, unbounded: EVERY contiguous layout of the plain shape (non-negative regions on read 1/2,
@@ -176,6 +176,207 @@ Theorem C02_registered_spec_rb : forall g p lookup recs o out,
   expected_rb (pr_layout p) (pr_extra p) lookup recs = Some out /\ length recs = 2%nat.
 Proof. exact registered_spec_rb. Qed.
 Print Assumptions C02_registered_spec_rb.
+
+(* =====================================================================================
+   composite strategies (TCHIC, CHICTV, DamAndT, DamID2andT_3u4b3u4b, DamID2andT_3u4b3u6b) and ILLU
+   ===================================================================================== *)
+
+(* str.find / in : the FIRST occurrence (occ p s j: p occurs in s at position j), or none *)
+Theorem C02_find_first : forall p s,
+  (forall i, find_sub p s = Some i ->
+     (i <= length s)%nat /\ occ p s i = true /\ forall j, (j < i)%nat -> occ p s j = false) /\
+  (find_sub p s = None -> forall j, (j <= length s)%nat -> occ p s j = false).
+Proof. intros p s. split; [intros i; apply find_sub_some|apply find_sub_none]. Qed.
+Print Assumptions C02_find_first.
+
+(* the [GA]*$ trimmer: input = kept ++ dropped, dropped consists of the characters, kept does not end in
+   one; and it is the LONGEST such suffix *)
+Theorem C02_strip_suffix : forall f l,
+  (exists t, l = drop_while_end f l ++ t /\ forallb f t = true /\
+             (drop_while_end f l = [] \/ exists a x, drop_while_end f l = a ++ [x] /\ f x = false)) /\
+  (forall a t, l = a ++ t -> forallb f t = true -> (length (drop_while_end f l) <= length a)%nat).
+Proof. intros f l. split; [apply dwe_spec|apply dwe_longest]. Qed.
+Print Assumptions C02_strip_suffix.
+
+(* the poly-T pruning loop: pos = the maximal run of T at the read start, except that a read made of T
+   only keeps its last base *)
+Theorem C02_prune_rule : forall c s,
+  prune_pos c s = Nat.min (run_len c s) (length s - 1) /\
+  firstn (run_len c s) s = repeat c (run_len c s) /\
+  (forall x, nth_error s (run_len c s) = Some x -> x <> c).
+Proof. intros c s. destruct (run_len_spec c s) as (H1 & H2 & _). split; [apply prune_pos_rule|split; assumption]. Qed.
+Print Assumptions C02_prune_rule.
+
+(* pruning keeps bases and qualities aligned (same stretch of both, tags untouched): what the seeded
+   change C02-7 broke *)
+Theorem C02_prune_aligned : forall c e,
+  stretch e (prune_rec c e) /\ same_tags e (prune_rec c e) /\
+  (length (o_seq e) = length (o_qual e) -> length (o_seq (prune_rec c e)) = length (o_qual (prune_rec c e))).
+Proof.
+  intros c e. split; [apply stretch_prune|]. split; [unfold prune_rec; apply same_tags_with_sq|].
+  intros Hl. apply (stretch_aligned e _ (stretch_prune c e) Hl).
+Qed.
+Print Assumptions C02_prune_aligned.
+
+Theorem C02_stretch_aligned : forall e o, stretch e o -> length (o_seq e) = length (o_qual e) ->
+  length (o_seq o) = length (o_qual o) /\
+  exists a, forall j x, nth_error (o_seq o) j = Some x ->
+     nth_error (o_seq e) (a + j) = Some x /\ nth_error (o_qual o) j = nth_error (o_qual e) (a + j).
+Proof. exact stretch_aligned. Qed.
+Print Assumptions C02_stretch_aligned.
+
+(* TCHIC read-2 trimming cuts bases and qualities at the same index m; m is: cut at the first poly-A and
+   poly-G run, strip the longest G/A suffix, drop 3 more *)
+Theorem C02_trim_r2 : forall T s q,
+  (let m := length (fst (trim_r2 T s q)) in trim_r2 T s q = (firstn m s, firstn m q) /\ (m <= length s)%nat) /\
+  (0 < t_trim_drop T ->
+   let s1 := fst (fold_left (fun acc p => cut_at p acc) (t_cuts T) (s, q)) in
+   let s2 := drop_while_end (in_chars (t_trim_chars T)) s1 in
+   fst (trim_r2 T s q) = firstn (length s2 - Z.to_nat (t_trim_drop T)) s2).
+Proof. intros T s q. split; [apply trim_r2_prefix|apply trim_r2_rule]. Qed.
+Print Assumptions C02_trim_r2.
+
+Theorem C02_dual_spec : forall D lkd lkt recs out Pd Pt,
+  arm_positions (d_damid D) = Some Pd -> arm_positions (d_tx D) = Some Pt ->
+  demux_dual D lkd lkt recs = Accept out ->
+  length recs = 2%nat /\
+  ((exists d t1 tr,
+      expected Pd (arm_rxb (d_damid D)) lkd recs = Some d /\
+      expected Pt (arm_rxb (d_tx D)) lkt recs = Some (t1 :: tr) /\
+      ((d_merge D = false /\ out = map (lift (d_mx_damid D) (d_dt_both D)) d) \/
+       (d_merge D = true /\
+        out = map (fun p => lift (d_mx_damid D) None (merge_rec (fst p) (snd p)))
+                  (combine (prune_rec (d_prune D) t1 :: tr) d))))
+   \/ (exists d, expected Pd (arm_rxb (d_damid D)) lkd recs = Some d /\
+                 run_arm (d_tx D) lkt recs = Reject /\
+                 out = map (lift (d_mx_damid D) (Some (d_dt_damid D))) d)
+   \/ (exists t1 tr, expected Pt (arm_rxb (d_tx D)) lkt recs = Some (t1 :: tr) /\
+                     run_arm (d_damid D) lkd recs = Reject /\
+                     out = map (lift (d_mx_tx D) (Some (d_dt_tx D))) (prune_rec (d_prune D) t1 :: tr))).
+Proof. exact dual_spec. Qed.
+Print Assumptions C02_dual_spec.
+
+Theorem C02_tchic_spec : forall T lookup cs2 recs out P,
+  positions_c (t_L T) (t_W T) = Some P ->
+  demux_tchic T lookup cs2 recs = Accept out ->
+  length recs = 2%nat /\
+  exists e1 e2 bc0,
+    expected P false lookup recs = Some [e1; e2] /\ cs2 (o_bi e1) = Some bc0 /\
+    let eb := bc0 ++ t_suffix T in
+    let rc2 := revcomp (t_comp T) (o_seq e2) in
+    ((contains eb (o_seq e1) || contains eb rc2 = true /\
+      let rx := if contains eb (o_seq e1) then extract_umi (t_umi_len T) (o_seq e1) eb
+                else extract_umi (t_umi_len T) rc2 eb in
+      let m := length (fst (trim_r2 T (o_seq e2) (o_qual e2))) in
+      out = [tchic_mk T (t_dt_vasa T) rx None e1;
+             tchic_mk T (t_dt_vasa T) rx None (with_sq (firstn m (o_seq e2)) (firstn m (o_qual e2)) e2)])
+     \/
+     (contains eb (o_seq e1) || contains eb rc2 = false /\
+      contains (t_polyT T) (o_seq e1) || contains (t_polyT T) (o_seq e2) = false /\
+      ((existsb (fun e => contains (fst e) (match snd e with
+                                            | Some w => firstn (Z.to_nat w) (o_seq e1)
+                                            | None => o_seq e1 end)) (t_t7 T) = true /\
+        out = [tchic_mk T (t_dt_t7 T) None (Some (t_rr T)) e1; tchic_mk T (t_dt_t7 T) None (Some (t_rr T)) e2])
+       \/
+       (existsb (fun e => contains (fst e) (match snd e with
+                                            | Some w => firstn (Z.to_nat w) (o_seq e1)
+                                            | None => o_seq e1 end)) (t_t7 T) = false /\
+        out = [tchic_mk T (t_dt_chic T) None None e1; tchic_mk T (t_dt_chic T) None None e2])))).
+Proof. exact tchic_spec. Qed.
+Print Assumptions C02_tchic_spec.
+
+Theorem C02_chictv_spec : forall V lookup recs out P,
+  arm_positions (v_arm V) = Some P ->
+  demux_chictv V lookup recs = Accept out ->
+  length recs = 2%nat /\
+  exists e1 er pos,
+    expected P (arm_rxb (v_arm V)) lookup recs = Some (e1 :: er) /\
+    find_sub (v_oligo V) (o_seq e1) = Some pos /\
+    let st := (pos - Z.to_nat (v_umi_len V))%nat in
+    let umi := sub st (pos - st) (o_seq e1) in
+    out = mkCR (with_sq (firstn pos (o_seq e1)) (firstn pos (o_qual e1)) e1) (v_mx V) None None None (Some umi)
+          :: map (fun o => mkCR o (v_mx V) None None None (Some umi)) er.
+Proof. exact chictv_spec. Qed.
+Print Assumptions C02_chictv_spec.
+
+Theorem C02_bulk_spec : forall recs out, demux_bulk recs = Accept out -> out = recs.
+Proof. exact bulk_spec. Qed.
+Print Assumptions C02_bulk_spec.
+
+(* ---- the common statement for every composite: an accepted input has 2 mates and yields 2 records; there
+   are an arm giving the bases (as_) and an arm giving the tags (at_, the same arm except when both arms
+   accept in the merging strategy) such that record i is a stretch (same indices for bases and qualities)
+   of the arm's expected record i, with the tags of the tag arm's expected record i *)
+Theorem C02_composite_spec : forall c lkA lkB cs2 recs out,
+  Forall (fun a => arm_positions a <> None) (comp_arms c) ->
+  comp_run c lkA lkB cs2 recs = Accept out ->
+  length recs = 2%nat /\ length out = 2%nat /\
+  exists as_ lks at_ lkt Ps Pt es et,
+    In (as_, lks) (combine (comp_arms c) [lkA; lkB]) /\ In (at_, lkt) (combine (comp_arms c) [lkA; lkB]) /\
+    arm_positions as_ = Some Ps /\ arm_positions at_ = Some Pt /\
+    expected Ps (arm_rxb as_) lks recs = Some es /\ expected Pt (arm_rxb at_) lkt recs = Some et /\
+    all_expl es et out.
+Proof. exact composite_spec. Qed.
+Print Assumptions C02_composite_spec.
+
+(* ... and in terms of the input mate: a contiguous stretch of THAT mate starting at or after the arm's
+   insert start, bases and qualities from the same indices, equally long when the input is *)
+Theorem C02_composite_of_mate : forall P b lookup recs es i r s t o,
+  expected P b lookup recs = Some es -> nth_error recs i = Some r -> nth_error es i = Some s ->
+  expl s t o ->
+  exists a k, o_seq o = sub (ins_of P i + a) k (fst r) /\ o_qual o = sub (ins_of P i + a) k (snd r) /\
+              (length (fst r) = length (snd r) -> length (o_seq o) = length (o_qual o)).
+Proof. exact expl_of_mate. Qed.
+Print Assumptions C02_composite_of_mate.
+
+(* ---- the registered composites: their regenerated arms take everything from the pinned positions *)
+Theorem C02_registered_composite_spec : forall g c ps lkA lkB cs2 recs out,
+  In g gen_table -> g_kind g = 3 ->
+  find_comp (g_name g) = Some c -> find_comp_protocol (g_name g) = Some ps ->
+  comp_run c lkA lkB cs2 recs = Accept out ->
+  Forall2 (fun a p => arm_positions a = Some p /\ wf_p p = true) (comp_arms c) ps /\
+  length recs = 2%nat /\ length out = 2%nat /\
+  exists as_ lks at_ lkt Ps Pt es et,
+    In (as_, lks) (combine (comp_arms c) [lkA; lkB]) /\ In (at_, lkt) (combine (comp_arms c) [lkA; lkB]) /\
+    arm_positions as_ = Some Ps /\ arm_positions at_ = Some Pt /\ In Ps ps /\ In Pt ps /\
+    expected Ps (arm_rxb as_) lks recs = Some es /\ expected Pt (arm_rxb at_) lkt recs = Some et /\
+    all_expl es et out.
+Proof. exact registered_composite_spec. Qed.
+Print Assumptions C02_registered_composite_spec.
+
+(* ... and every literal (oligos, run lengths, the 3 of [:-3], UMI lengths, dt / MX strings, complement table)
+   of the regenerated definition equals the pinned one: the obligation a changed literal breaks *)
+Theorem C02_registered_literals : forall g c lits,
+  In g gen_table -> g_kind g = 3 \/ g_kind g = 0 ->
+  find_comp (g_name g) = Some c -> find_comp_literals (g_name g) = Some lits -> comp_consts c = lits.
+Proof. exact registered_comp_literals. Qed.
+Print Assumptions C02_registered_literals.
+
+(* trimmers on concrete strings: TTT keeps its last T; TTAT loses TT; GA-suffix + 3; first occurrence *)
+Example C02_ex_trimmers :
+  prune_pos 84 [84; 84; 84] = 2%nat /\ prune_pos 84 [84; 84; 65; 84] = 2%nat /\ prune_pos 84 [] = 0%nat /\
+  drop_while_end (in_chars [71; 65]) [67; 71; 84; 71; 65; 65] = [67; 71; 84] /\
+  find_sub [65; 71] [84; 65; 71; 65; 71] = Some 1%nat /\ find_sub [67] [84; 65] = None.
+Proof. vm_compute. repeat split. Qed.
+Print Assumptions C02_ex_trimmers.
+
+(* a transcriptome read through a DamID+transcriptome strategy: the DamID arm rejects, read 1 insert TTAC
+   loses its poly-T prefix together with the two matching qualities, dt = RNA *)
+Definition ex_dual : dual :=
+  mkDual (ArmC (mkC 0 0 3 0 3 10 None None [slice_from 12; slice_all]) (mkW None (Some (11, 2)) false))
+         (ArmC (mkC 0 0 6 0 6 8 (Some 1) (Some (slice_range 0 6)) [slice_from 14; slice_from 6]) (mkW None None false))
+         [68] [67] false (Some [65]) [82] [68] 84.
+Example C02_ex_dual :
+  match demux_dual ex_dual (fun _ => None) (fun raw => Some (7, raw))
+          [([1;2;3;4;5;6; 11;12;13;14;15;16;17;18; 84;84;65;67], [40;41;42;43;44;45; 46;47;48;49;50;51;52;53; 60;61;62;63]);
+           ([71;72;73;74;75;76; 65;65], [40;40;40;40;40;40; 50;51])] with
+  | Accept [c1; c2] =>
+    o_seq (cr_o c1) = [65; 67] /\ o_qual (cr_o c1) = [62; 63] /\ cr_dt c1 = Some [82] /\ cr_mx c2 = [67] /\
+    o_seq (cr_o c2) = [65; 65] /\ o_rS (cr_o c2) = Some [71;72;73;74;75;76] /\ o_bc (cr_o c1) = [11;12;13;14;15;16;17;18]
+  | _ => False
+  end.
+Proof. vm_compute. repeat split. Qed.
+Print Assumptions C02_ex_dual.
 
 (* ---- non-vacuity / refutation on literal layouts (independent of the regenerated table) *)
 Definition ex_lookup : lookup_t := fun raw => if Nat.eqb (length raw) 8 then Some (7, raw) else None.
